@@ -55,6 +55,6 @@ PROPS = {
              assumptions=BASE_ASSUME + ["of the JSON codec only the treatment of free-form strings (request ids, prevote hashes) is modelled (jsonStr); bech32 and hex codecs are exercised, not modelled"]),
  "C18": dict(jobs=[CORPUS, pure(1500, 30000), chain("oracle", 15, 300)], rule=NONTRIVIAL, assumptions=BASE_ASSUME + ["SHA-256 enters the theorems as an arbitrary function"]),
  "C19": dict(jobs=[CORPUS, pure(1500, 30000), chain("settle", 25, 400)], rule=NONTRIVIAL, assumptions=BASE_ASSUME + ["EIP-55 checksum casing is canonicalised away (a bijection on the lower-case form)"]),
- "C20": dict(jobs=[CORPUS, pure(2000, 40000), dict(engine="cacherace", n=(20000, 200000))], rule=NONTRIVIAL + "; one writer and four readers run under the Go race detector",
+ "C20": dict(jobs=[CORPUS, pure(2000, 40000), chain("settle", 10, 150), dict(engine="cacherace", n=(20000, 200000))], rule=NONTRIVIAL + "; one writer and four readers run under the Go race detector",
              assumptions=BASE_ASSUME + ["data-race freedom is a property of the Go memory model: covered by the lock-discipline fact and the race detector, not by a theorem"]),
 }
